@@ -21,6 +21,7 @@ EXPLANATION = (
     "become variants) consults every constraint it holds — maxLength, minLength and pattern — on every path on which it accepts a "
     "value; (W6) a definition that is a bare `$ref` alias becomes a newtype over the *referenced type itself* (the id the "
     "Reference carries), never over that type's inner type — which would shed the referenced type's constraints."
+    " (W7) the inner schema of a `[T, null]` type is the outer one (`..schema`) with only metadata / instance_type / enum_values overridden; (T4, sources) the maxLength check is emitted for every stated bound (no filter before it), the minLength check may skip only 0."
 )
 ASSUMPTIONS = ["serde enforces tuple arity, tags and scalar JSON types", "regress implements ECMA-262 patterns"]
 
